@@ -188,10 +188,15 @@ def main():
     text = ("Bounded-exact: for each program the machine compiled at -O0 is compared with the machine compiled at each level / with each optimisation flag alone by an exact bisimulation in eager normal form "
             "(all 257 symbols; append overflow and conditions as symbolic branches; actions, consumption, acceptance, finish/yield codes compared; the only slack absorbed is an action sitting between two consumed bytes). "
             "Pass-level contracts for simplify / remove-inaccessible on every call. collapse-transition-ranges only affects code generation: for it the emitted C is proved (csem+z3, 'refine' obligations as in C06) to execute the same machine with the flag on and off, on the corpus, a regex sample and generated programs.")
+    # else-simplification pass: per-transition contract from the real AST (pyvc) + L-simplify (Lean): the pass cannot change any lookup
+    from . import c05_proofs
+    c05_proofs.run(rep, "C05")
     # the byte-test emitter (range collapsing is an optimisation flag): its text denotes exactly the transition's symbols for ALL symbol lists,
     # thresholds and flag values (loop invariants + z3 on the real AST, vf/props/cond_proofs.py)
     from . import cond_proofs
     cond_proofs.run(rep, "C05")
+    text += (" Proved (pyvc + Lean 4): _optimize_simplify_transition_matches rewrites a symbol list to [Else] exactly when it lists Else among other symbols and touches nothing else (arbitrary transition, symbolic flag); "
+             "L-simplify: under RI1 that rewrite preserves the transition every symbol selects.")
     text += (" Proved for all symbol lists, collapse thresholds and flag values (pyarr: VCs from the real AST with loop invariants, z3): the condition text emitted by "
              "_generate_condition_for_transition denotes exactly the transition's byte symbols, with or without range collapsing; the leaf templates (_generate_equal_check, _generate_range_check) by exhaustion.")
     return rep.finish(text, checker_cmd="./check C05", require_obligations=False)
